@@ -2,5 +2,6 @@ SPECIFICATION Spec
 CONSTANTS Tier = "thorough"
           Depth = 3
 PROPERTY AreaLaws
+PROPERTY CorrLaws
 INVARIANT ZonoAgrees
 CHECK_DEADLOCK FALSE
